@@ -122,10 +122,23 @@ impl LineSpectralPairs {
                 if i > 1 && i < self.len() - 1 {
                     let d1 = beta * (self[i + 1] - self[i]);
                     let d2 = beta * (self[i] - self[i - 1]);
+                    let span = (self[i + 1] - self[i - 1]) - (d1 + d2);
+                    let den = (d2 * d2) + (d1 * d1);
                     buf[i] = self[i - 1]
                         + d2
-                        + (d2 * d2 * ((self[i + 1] - self[i - 1]) - (d1 + d2)))
-                            / ((d2 * d2) + (d1 * d1));
+                        + if den.is_normal() {
+                            (d2 * d2 * span) / den
+                        } else {
+                            // beta so small that the squares underflow (0/0): the weight d2^2 / (d1^2 + d2^2)
+                            // does not depend on beta, take it from the gaps themselves
+                            let (g1, g2) = (self[i + 1] - self[i], self[i] - self[i - 1]);
+                            let weight = (g2 * g2) / ((g2 * g2) + (g1 * g1));
+                            if weight.is_finite() {
+                                weight * span
+                            } else {
+                                self[i] - self[i - 1] - d2
+                            }
+                        };
                 } else {
                     buf[i] = self[i];
                 }
